@@ -828,3 +828,315 @@ def rule_direct_wiring(rep: Report, repo: Repo):
     z = [o for o in outcomes(f.body, None, env={}, atom=atom0, expand=False)]
     rep.check(len(z) == 1 and z[0].kind == "return" and norm(z[0].value) == "zero", R,
               f"{MOD}::solve_sylvester_direct an absent right-hand side gives an absent solution", "", loc(f))
+
+
+# ---------------------------------------------------------------------------
+# second-quantised scalar solver on resolved paths
+# ---------------------------------------------------------------------------
+
+
+def _pick_ifexp(e, atom):
+    """Replace conditional expressions whose test is decided by `atom` with the chosen arm."""
+    from .paths import eval_bool
+    from .resolve import clone
+
+    class T(ast.NodeTransformer):
+        def visit_IfExp(self, node):
+            self.generic_visit(node)
+            v = eval_bool(node.test, atom)
+            if v is None:
+                return node
+            return node.body if v else node.orelse
+    return T().visit(clone(e))
+
+
+_PLUS1 = ("sympy.S.One", "One", "1", "sympy.Integer(1)")
+_MINUS1 = tuple("-" + t for t in _PLUS1) + ("sympy.S.NegativeOne",)
+
+
+def rule_solve_scalar(rep: Report, repo: Repo):
+    """H_ii V - V H_jj = Y term by term:  H_ii(N) (a†)^m v(N) a^p - (a†)^m v(N) a^p H_jj(N)
+    = (a†)^m [H_ii(N + m) - H_jj(N + p)] v(N) a^p   (fermions/spins: N -> 1 on the side that carries the operator).
+    Decided per path (lexicographically negative shift or not, diagonal entry or not) on resolved expressions."""
+    from .paths import eval_bool
+    from .resolve import resolved, rtext
+
+    R = "E7.solve_scalar"
+    f = repo.find("second_quantization::solve_scalar", R)
+    loc = lambda n: repo.loc("second_quantization", n)
+    params = [a.arg for a in f.args.args]
+    if params[:3] != ["Y", "H_ii", "H_jj"] or "diagonal" not in params + [a.arg for a in f.args.kwonlyargs]:
+        raise AnalysisError(R, f"solve_scalar signature {params}")
+    loops = [n for n in f.body if isinstance(n, ast.For) and isinstance(n.target, ast.Tuple) and len(n.target.elts) == 2]
+    if len(loops) != 1:
+        raise AnalysisError(R, "solve_scalar: loop over the terms of Y not found")
+    lp = loops[0]
+    S, C = (norm(e) for e in lp.target.elts)
+    neg_forms = (f"tuple({S}) < (0,) * len({S})", f"{S} < (0,) * len({S})")
+    results = {}
+    shift_nodes = {}
+    for neg in (False, True):
+        for diag in (False, True):
+            def atom(n):
+                t = norm(canon(n))
+                if t in neg_forms:
+                    return neg
+                if t == "diagonal":
+                    return diag
+                if isinstance(n, ast.Compare) and len(n.ops) == 1 and isinstance(n.ops[0], (ast.Is, ast.IsNot, ast.Eq, ast.NotEq)):
+                    l = _pick_ifexp(n.left, atom)
+                    r = _pick_ifexp(n.comparators[0], atom)
+                    lt, rt = norm(l), norm(r)
+                    if lt in _PLUS1 + _MINUS1 and rt in _PLUS1 + _MINUS1:
+                        same = (lt in _PLUS1) == (rt in _PLUS1)
+                        return same if isinstance(n.ops[0], (ast.Is, ast.Eq)) else not same
+                return None
+            outs = outcomes(lp.body, None, env={}, atom=atom, expand=False)
+            kinds = {o.kind for o in outs}
+            if len(outs) != 1:
+                raise AnalysisError(R, f"solve_scalar: {len(outs)} paths through the term loop for (negative shift={neg}, diagonal={diag}): "
+                                       f"undecided condition `{[norm(t)[:50] for o in outs for t, _p in o.conds if eval_bool(t, atom) is None][:1]}`")
+            o = outs[0]
+            stores = [(st, rv) for kind, st, rv in o.seq if kind == "assign" and isinstance(st, ast.Assign)
+                      and isinstance(st.targets[0], ast.Subscript) and norm(st.targets[0].slice) == S]
+            if o.kind == "continue":
+                results[(neg, diag)] = ("skip",)
+                continue
+            if len(stores) != 1:
+                raise AnalysisError(R, f"solve_scalar: {len(stores)} stores of the solved coefficient on one path")
+            v = _pick_ifexp(stores[0][1], atom)
+            num, den = [], []
+            def flat(e, inv=False):
+                if isinstance(e, ast.BinOp) and isinstance(e.op, ast.Mult):
+                    flat(e.left, inv); flat(e.right, inv)
+                elif isinstance(e, ast.BinOp) and isinstance(e.op, ast.Div):
+                    flat(e.left, inv); flat(e.right, not inv)
+                elif isinstance(e, ast.BinOp) and isinstance(e.op, ast.Pow) and norm(e.right) in _MINUS1 + tuple(f"({m})" for m in _MINUS1):
+                    flat(e.left, not inv)
+                else:
+                    (den if inv else num).append(e)
+            flat(v)
+            sign = [x for x in num if norm(x) in _PLUS1 + _MINUS1]
+            rest = [x for x in num if norm(x) not in _PLUS1 + _MINUS1]
+            if len(sign) > 1 or [norm(x) for x in rest] != [C] or len(den) != 1:
+                raise AnalysisError(R, f"solve_scalar: solved coefficient `{norm(v)[:100]}` is not sign * coeff / denominator")
+            sg = -1 if (sign and norm(sign[0]) in _MINUS1) else 1
+            diffs = [n_ for n_ in ast.walk(den[0]) if isinstance(n_, ast.BinOp) and isinstance(n_.op, ast.Sub)
+                     and all(isinstance(x, ast.Call) and isinstance(x.func, ast.Attribute) and x.func.attr == "xreplace" for x in (n_.left, n_.right))]
+            if len(diffs) != 1:
+                raise AnalysisError(R, f"solve_scalar: denominator `{norm(den[0])[:100]}` is not built from H_ii' - H_jj'")
+            bases = (norm(diffs[0].left.func.value), norm(diffs[0].right.func.value))
+            if set(bases) != {"H_ii", "H_jj"}:
+                raise AnalysisError(R, f"solve_scalar: denominator subtracts {bases}")
+            orient = 1 if bases == ("H_ii", "H_jj") else -1
+            results[(neg, diag)] = ("solve", sg, orient)
+            for side in (diffs[0].left, diffs[0].right):
+                shift_nodes[norm(side.func.value)] = (side, stores[0][0])
+    want_skip = {(False, True)}
+    ok_skip = all((results[k] == ("skip",)) == (k in want_skip) for k in results)
+    ok_sign = all(r[1] * r[2] == 1 for r in results.values() if r[0] == "solve")
+    signs = sorted({r[1] for r in results.values() if r[0] == "solve"})
+    rep.check(ok_sign, R, "second_quantization::solve_scalar denominator is sign * (H_ii' - H_jj')",
+              f"(negative shift, diagonal) -> (action, sign, orientation of the difference): {results}", loc(lp))
+    rep.check(ok_sign, R, "second_quantization::solve_scalar solution coefficient = sign * coeff / denominator = coeff / (H_ii' - H_jj')", "", loc(lp))
+    rep.check(set(signs) <= {1, -1}, R, "second_quantization::solve_scalar `sign` only takes the values +1 / -1", str(signs), loc(lp))
+    # the shifts
+    def loop_as_dictcomp(dname):
+        """D = {}; for T in IT: [if C:] D[K] = V   ->   {K: V for T in IT if C}   (one store path per loop iteration)"""
+        inits = [s_ for s_ in lp.body if isinstance(s_, ast.Assign) and any(norm(t) == dname for t in s_.targets)]
+        if len(inits) != 1 or norm(inits[0].value) not in ("{}", "dict()"):
+            return None
+        fills = [s_ for s_ in lp.body if isinstance(s_, ast.For) and any(
+            isinstance(x, ast.Subscript) and isinstance(x.ctx, ast.Store) and norm(x.value) == dname for x in ast.walk(s_))]
+        if len(fills) != 1:
+            return None
+        L = fills[0]
+        found = []
+        for o in outcomes(L.body, None, env={}, expand=False):
+            for kind, st, rv in o.seq:
+                if kind == "assign" and isinstance(st, ast.Assign) and isinstance(st.targets[0], ast.Subscript) and norm(st.targets[0].value) == dname:
+                    # conditions that precede the store on this path
+                    lits = {}
+                    for k2, t2, p2 in o.seq:
+                        if k2 == "assign" and t2 is st:
+                            break
+                        if k2 == "cond":
+                            lits[(norm(t2), p2)] = t2 if p2 else ast.UnaryOp(op=ast.Not(), operand=t2)
+                    key = resolved(st.targets[0].slice, {k_: v_ for k_, v_ in o.env.items()})
+                    found.append((frozenset(lits), key, rv, lits))
+        if not found or len({(norm(k_), norm(v_)) for _c, k_, v_, _ in found}) != 1:
+            return None
+        # merge paths that differ in the polarity of one (irrelevant) condition
+        sets = {c for c, _k, _v, _l in found}
+        nodes = {}
+        for _c, _k, _v, l_ in found:
+            nodes.update(l_)
+        changed = True
+        while changed and len(sets) > 1:
+            changed = False
+            for a_ in list(sets):
+                for lit in a_:
+                    twin = (a_ - {lit}) | {(lit[0], not lit[1])}
+                    if twin in sets and twin != a_:
+                        sets -= {a_, twin}
+                        sets.add(a_ - {lit})
+                        changed = True
+                        break
+                if changed:
+                    break
+        if len(sets) != 1:
+            return None
+        conds = [nodes[l_] for l_ in sorted(next(iter(sets)))]
+        _c, key, val, _l = found[0]
+        return ast.DictComp(key=key, value=val, generators=[ast.comprehension(target=L.target, iter=L.iter, ifs=conds, is_async=0)])
+
+    def shift_info(call):
+        arg = call.args[0] if len(call.args) == 1 else None
+        if isinstance(arg, ast.Name):
+            arg = loop_as_dictcomp(arg.id)
+        if not isinstance(arg, ast.DictComp):
+            raise AnalysisError(R, f"solve_scalar: the replacement passed to {norm(call.func.value)}.xreplace is neither a dict comprehension "
+                                   "nor a dictionary filled by one loop: not understood")
+        dc = arg
+        gen = dc.generators[0]
+        tn = [norm(e) for e in gen.target.elts] if isinstance(gen.target, ast.Tuple) else []
+        it = gen.iter
+        if not (isinstance(it, ast.Call) and call_name(it) == "zip" and len(it.args) == 2 and norm(it.args[0]) == S
+                and norm(it.args[1]).endswith("operators") and len(tn) == 2):
+            raise AnalysisError(R, f"solve_scalar: shift comprehension iterates `{norm(it)[:60]}`")
+        delta, op = tn
+        filt = [norm(canon(c)).replace(delta, "delta") for c in gen.ifs]
+        val = dc.value
+        if not isinstance(val, ast.IfExp) or norm(val.test) != f"isinstance({op}, (BosonOp, LadderOp))":
+            raise AnalysisError(R, f"solve_scalar: shift value `{norm(val)[:60]}` not understood")
+        sign = None
+        if isinstance(val.body, ast.BinOp) and norm(val.body.right) == delta and norm(val.body.left) == norm(dc.key):
+            sign = "+" if isinstance(val.body.op, ast.Add) else "-" if isinstance(val.body.op, ast.Sub) else None
+        return {"filter": filt, "sign": sign, "binary": norm(val.orelse)}
+    if set(shift_nodes) != {"H_ii", "H_jj"}:
+        raise AnalysisError(R, "solve_scalar: shifted energies not found")
+    jj = shift_info(shift_nodes["H_jj"][0])
+    ii = shift_info(shift_nodes["H_ii"][0])
+    ok = jj["filter"] in (["delta > 0"], ["0 < delta"]) and jj["sign"] == "+" and jj["binary"] in _PLUS1
+    rep.check(ok, R, "second_quantization::solve_scalar annihilation powers (delta > 0) shift H_jj by N -> N + delta (binary modes -> 1)", str(jj), loc(shift_nodes["H_jj"][1]))
+    ok = ii["filter"] in (["delta < 0"], ["0 > delta"]) and ii["sign"] == "-" and ii["binary"] in _PLUS1
+    rep.check(ok, R, "second_quantization::solve_scalar creation powers (delta < 0) shift H_ii by N -> N - delta (binary modes -> 1)", str(ii), loc(shift_nodes["H_ii"][1]))
+    # diagonal entries: half of the terms + minus the adjoint
+    comp = {}
+    for diag in (False, True):
+        def atom2(n):
+            t = norm(canon(n))
+            if t == "diagonal":
+                return diag
+            if t in ("Y == 0", "0 == Y"):
+                return False
+            return None
+        outs = outcomes(f.body, None, env={}, atom=atom2, expand=False)
+        comp[diag] = sorted({norm(ev) for o in outs for ev in o.events if isinstance(ev, ast.AugAssign)})
+    ok = ok_skip and comp[False] == [] and len(comp[True]) == 1 and _re.fullmatch(r"(\w+) -= \1\.adjoint\(\)", comp[True][0]) is not None
+    rep.check(ok, R, "second_quantization::solve_scalar diagonal entries: solve half of the terms, complete with minus the adjoint (anti-Hermitian solution)",
+              f"skipped: {sorted(k for k, r in results.items() if r == ('skip',))} (negative shift, diagonal); completion {comp}", loc(f))
+
+    # -- the matrix wrapper -------------------------------------------------------------------------------------------
+    w = repo.find("second_quantization::solve_sylvester_2nd_quant", R)
+    inner = [d for d in nested_defs(w) if d.name == "solve_sylvester"]
+    if len(inner) != 1:
+        raise AnalysisError(R, "solve_sylvester_2nd_quant: nested solver not found")
+    inner = inner[0]
+    table = {}
+    names = {}
+    for dblock in (False, True):
+        for rel in "<=>":
+            def blk(n):
+                """index[0] vs index[1] comparison -> bool"""
+                if isinstance(n, ast.Compare) and len(n.ops) == 1 and {norm(n.left), norm(n.comparators[0])} == {"index[0]", "index[1]"}:
+                    if isinstance(n.ops[0], ast.Eq):
+                        return dblock
+                    if isinstance(n.ops[0], ast.NotEq):
+                        return not dblock
+                return None
+            def atom_top(n):
+                t = norm(canon(n))
+                if t == "Y is zero":
+                    return False
+                return blk(n)
+            stores = []
+            tops = outcomes(inner.body, None, env={}, atom=atom_top, expand=False)
+            # free conditions at the top level (empty eigenvalue lists) do not change which loops run
+            loops_seen = {tuple(id(e) for e in o.events if isinstance(e, ast.For)) for o in tops if o.kind == "return"}
+            if len(loops_seen) != 1:
+                raise AnalysisError(R, "solve_sylvester_2nd_quant: which element loops run depends on an undecided condition")
+            rets_top = [o for o in tops if o.kind == "return"]
+            top = rets_top[0]
+            # only locals with the same resolved value on every path are substituted inside the loops
+            env_top = {k: v for k, v in top.env.items() if all(k in o.env and norm(o.env[k]) == norm(v) for o in rets_top)}
+            for ev in top.events:
+                if not isinstance(ev, ast.For):
+                    continue
+                if not (isinstance(ev.target, ast.Name) and norm(ev.iter) == "range(Y.rows)" and len(ev.body) == 1 and isinstance(ev.body[0], ast.For)
+                        and isinstance(ev.body[0].target, ast.Name) and norm(ev.body[0].iter) == "range(Y.cols)"):
+                    raise AnalysisError(R, f"solve_sylvester_2nd_quant: element loop `for {norm(ev.target)} in {norm(ev.iter)}` not understood")
+                I, J = ev.target.id, ev.body[0].target.id
+                names["ij"] = (I, J)
+                def atom_in(n, I=I, J=J):
+                    b = blk(n)
+                    if b is not None:
+                        return b
+                    if isinstance(n, ast.Compare) and len(n.ops) == 1 and {norm(n.left), norm(n.comparators[0])} == {I, J}:
+                        rels = {ast.Lt: "<", ast.LtE: "<=", ast.Gt: ">", ast.GtE: ">=", ast.Eq: "=", ast.NotEq: "<>"}.get(type(n.ops[0]))
+                        if rels is None:
+                            return None
+                        if norm(n.left) == J:
+                            rels = rels.translate(str.maketrans("<>", "><"))
+                        return rel in rels
+                    return None
+                env_in = {k: v for k, v in env_top.items() if k not in (I, J)}
+                outs = outcomes(ev.body[0].body, None, env=env_in, atom=atom_in, expand=False)
+                if len(outs) != 1:
+                    raise AnalysisError(R, "solve_sylvester_2nd_quant: element loop body has an undecided condition")
+                for kind, st, rv in outs[0].seq:
+                    if kind == "assign" and isinstance(st, ast.Assign) and isinstance(st.targets[0], ast.Subscript):
+                        val = rv
+                        if isinstance(val, ast.Call) and call_name(val) == "solve_scalar":
+                            kw = {k.arg: k.value for k in val.keywords}
+                            dg = eval_bool(kw["diagonal"], atom_in) if "diagonal" in kw else False
+                            args = [norm(a) for a in val.args]
+                            stores.append(("solve", norm(st.targets[0]), tuple(a.replace(I, "i").replace(J, "j") for a in args), dg))
+                            names.setdefault("eigs", set()).add((args[1].split("[")[0], args[2].split("[")[0]) if len(args) == 3 else ("?", "?"))
+                        else:
+                            stores.append(("fill", norm(st.targets[0]).replace(I, "i").replace(J, "j"), norm(val).replace(I, "i").replace(J, "j")))
+            table[(dblock, rel)] = stores
+    res_name = None
+    ok_solve, ok_fill = True, True
+    detail = {}
+    for (dblock, rel), stores in table.items():
+        solves = [s for s in stores if s[0] == "solve"]
+        fills = [s for s in stores if s[0] == "fill"]
+        want_solve = (not dblock) or rel in "=>"
+        want_fill = dblock and rel == "<"
+        detail[(dblock, rel)] = [s[0] for s in stores]
+        if want_solve:
+            if not (len(solves) == 1 and len(solves[0][2]) == 3 and solves[0][2][0] == "Y[i, j]" and solves[0][2][1].endswith("[i]")
+                    and solves[0][2][2].endswith("[j]") and solves[0][3] == (dblock and rel == "=") and not fills):
+                ok_solve = False
+        else:
+            if solves:
+                ok_solve = False
+        if want_fill:
+            if not (len(fills) == 1 and _re.fullmatch(r"(\w+)\[i, j\]", fills[0][1]) and
+                    fills[0][2] == f"-{fills[0][1].split('[')[0]}[j, i].adjoint()"):
+                ok_fill = False
+        elif fills:
+            ok_fill = False
+    rep.check(ok_solve, R, "second_quantization::solve_sylvester_2nd_quant element (i, j) is solved with H_ii = eigs_A[i], H_jj = eigs_B[j]",
+              f"(diagonal block, i ? j) -> stores {detail}; solved entries: all of an off-diagonal block, i >= j of a diagonal block, "
+              "diagonal=True exactly on the diagonal of a diagonal block", loc(inner))
+    rep.check(ok_fill, R, "second_quantization::solve_sylvester_2nd_quant upper triangle of a diagonal block = minus the adjoint of the computed lower triangle",
+              "", loc(inner))
+    e_names = names.get("eigs", set())
+    if len(e_names) != 1:
+        raise AnalysisError(R, "solve_sylvester_2nd_quant: energies passed to solve_scalar not understood")
+    A, B = next(iter(e_names))
+    un = [n for n in own_nodes(inner) if isinstance(n, ast.Assign) and isinstance(n.targets[0], ast.Tuple) and norm(n.targets[0]) == f"({A}, {B})"]
+    e = [norm(n.value) for n in un]
+    rep.check(e == ["(eigs[index[0]], eigs[index[1]])"], R, "second_quantization::solve_sylvester_2nd_quant eigs_A, eigs_B = eigs[index[0]], eigs[index[1]]", str(e), loc(inner))
